@@ -99,6 +99,7 @@ func c19app(e *env) {
 	for _, n := range sizes {
 		var nodes []*fakemc.Server
 		var addrs []string
+		var listeners []net.Listener
 		for i := 0; i < n; i++ {
 			f := fakemc.New()
 			f.LogOn = false
@@ -106,7 +107,7 @@ func c19app(e *env) {
 			if err != nil {
 				rig.Die("c19app: %v", err)
 			}
-			defer l.Close()
+			listeners = append(listeners, l)
 			nodes = append(nodes, f)
 			addrs = append(addrs, l.Addr().String())
 		}
@@ -147,6 +148,9 @@ func c19app(e *env) {
 			for _, p := range procs {
 				p.proc.Process.Kill()
 				p.proc.Wait()
+			}
+			for _, l := range listeners {
+				l.Close()
 			}
 		}
 		in := func(extra map[string]interface{}) map[string]interface{} {
@@ -218,6 +222,51 @@ func c19app(e *env) {
 		readAll(procs[1], "a key stored through one process is not found through a process given the same nodes in another order", all)
 		readAll(procs[2], "a key stored through one process is not found through a process given the same nodes in another order", all)
 		readAll(procs[3], "after a node was removed from the list, keys that the removed node did not own are no longer found", func(k string) bool { return owner[k] != removed })
+		// a node that refuses connections exactly while a client connection is being set up: that
+		// client is refused, or - once the node is back - it must find every key where the others do
+		{
+			down := (removed + 1) % n
+			listeners[down].Close()
+			c2, err := dialBin(procs[1].port)
+			var early error
+			if err == nil {
+				_, _, early = c2.do(stack.Req{Kind: "noop", Opaque: 5})
+			}
+			l2, lerr := nodes[down].ListenTCPAt(addrs[down])
+			if lerr != nil {
+				rig.Die("c19app: cannot bring node %d back on %s: %v", down, addrs[down], lerr)
+			}
+			listeners[down] = l2
+			if err == nil && early == nil {
+				bad := 0
+				var first string
+				for i, k := range keys {
+					if _, stored := owner[k]; !stored {
+						continue
+					}
+					st, v, gerr := c2.do(stack.Req{Kind: "get", Items: []stack.GItem{{Key: []byte(k), Opaque: uint32(i)}}})
+					if gerr != nil {
+						break // the connection was given up after all: allowed
+					}
+					if st != 0 || !bytes.Equal(v, []byte("v-"+k)) {
+						bad++
+						if first == "" {
+							first = fmt.Sprintf("key %q stored on node %d (%s): status %d value %q", k, owner[k], addrs[owner[k]], st, v)
+						}
+					}
+				}
+				if bad > 0 {
+					w.Fail(rig.GoFailure{Kind: "counterexample", What: "a client connection set up while one node refused connections routes keys differently from the other connections once the node is back",
+						Input: in(map[string]interface{}{"node_down_during_setup": down}), Detail: fmt.Sprintf("%d keys not found; first: %s", bad, first)})
+				}
+				w.Count("node-down-during-setup=served")
+			} else {
+				w.Count("node-down-during-setup=refused")
+			}
+			if err == nil {
+				c2.c.Close()
+			}
+		}
 		c0.c.Close()
 		kill()
 		w.Count(fmt.Sprintf("cluster-proxy-nodes=%d", n))
